@@ -279,6 +279,41 @@ func (c *Ctx) MC(module, cfg string, workers int) *TLCResult {
 	return res
 }
 
+// Apalache runs the symbolic model checker on one query (base case, inductive step, or a probe that must fail).
+// expectViolation: the query is a negative control / non-vacuity probe and has to end with a counterexample.
+func (c *Ctx) Apalache(module, what string, expectViolation bool, args ...string) {
+	if os.Getenv("VERIF_SKIP_MC") == "1" { // development aid only
+		return
+	}
+	c.mu.Lock()
+	c.tlcSeq++
+	seq := c.tlcSeq
+	c.mu.Unlock()
+	outDir := filepath.Join(c.Work, fmt.Sprintf("apalache-%d", seq))
+	full := append([]string{"900", "apalache-mc", "check", "--out-dir=" + outDir, "--run-dir=" + outDir, "--output-traces=false"}, args...)
+	full = append(full, module)
+	cmd := exec.Command("timeout", full...)
+	cmd.Dir = filepath.Join(c.Work, "spec")
+	var out bytes.Buffer
+	cmd.Stdout = &out
+	cmd.Stderr = &out
+	t0 := time.Now()
+	cmd.Run()
+	os.RemoveAll(outDir)
+	o := out.String()
+	ok := strings.Contains(o, "The outcome is: NoError") && strings.Contains(o, "EXITCODE: OK")
+	viol := strings.Contains(o, "The outcome is: Error") && strings.Contains(o, "EXITCODE: ERROR (12)")
+	if (expectViolation && !viol) || (!expectViolation && !ok) {
+		c.Infra("Apalache %s (%s): unexpected outcome\n%s", module, what, tail(o, 30))
+		return
+	}
+	c.mu.Lock()
+	c.mcRuns = append(c.mcRuns, map[string]interface{}{"module": module, "tool": "apalache", "query": what, "args": strings.Join(args, " "),
+		"outcome": map[bool]string{true: "counterexample (expected)", false: "no error"}[expectViolation], "wall_s": round1(time.Since(t0).Seconds())})
+	c.mu.Unlock()
+	fmt.Printf("APALACHE %s %s: %s, %.1fs\n", module, what, map[bool]string{true: "counterexample as expected", false: "holds"}[expectViolation], time.Since(t0).Seconds())
+}
+
 func tail(s string, n int) string {
 	ls := strings.Split(strings.TrimRight(s, "\n"), "\n")
 	if len(ls) > n {
